@@ -274,14 +274,17 @@ def Sim.runAllFwd (s : Sim) : Sim := (List.range s.fwds.length).foldl (fun s i =
 
 /-- a frame of the source port of a forwarder was delivered to the forwarding endpoint -/
 def Sim.fwdOnRx (s : Sim) (key : String) (f : Frame) : Sim :=
-  { s with fwds := s.fwds.map (fun x => if x.src == key then { x with upRx := x.upRx ++ [f] } else x) }
+  let isPorts := match f with | .ports _ _ _ => true | _ => false
+  { s with fwds := s.fwds.map (fun x =>
+      if x.src == key then { x with upRx := x.upRx ++ [f], upCur := if isPorts then x.upCur else none } else x) }
 
 /-- the forwarding endpoint put a frame for the destination port of a forwarder on the wire:
 `forward_chunks_exact` on the real frames -/
 def Sim.fwdOnTx (s : Sim) (line : Nat) (key : String) (f : Frame) : Sim :=
   s.fwds.zipIdx.foldl (fun s (x, i) =>
     if x.dst != key then s else
-    let x' := { x with downTx := x.downTx ++ [f] }
+    let isPorts := match f with | .ports _ _ _ => true | _ => false
+    let x' := { x with downTx := x.downTx ++ [f], downCur := if isPorts then x.downCur else none }
     let s := s.updFwd i (fun _ => x')
     let s := if x'.exactOk then s else
       s.fail "c11" line s!"forwarder {x.k}: the messages completed on {x.dst} {showMsgs (parse none x'.downTx)} are not a prefix of the messages received on {x.src} {showMsgs (parse none x'.upRx)} (a truncated, altered or invented message was forwarded as complete)"
@@ -296,11 +299,14 @@ def Sim.fwdOnTx (s : Sim) (line : Nat) (key : String) (f : Frame) : Sim :=
 
 /-- ids of a PortData frame on a forwarder's source (delivered) or destination (put on the wire) port:
 `forward_requests_paired` on the real frames -/
-def Sim.fwdIds (s : Sim) (line : Nat) (isTx : Bool) (key : String) (ids : List Nat) : Sim :=
+def Sim.fwdIds (s : Sim) (line : Nat) (isTx : Bool) (key : String) (ids : List Nat) (first last : Bool) : Sim :=
   s.fwds.zipIdx.foldl (fun s (x, i) =>
-    if !isTx && x.src == key then s.updFwd i (fun x => { x with upIds := x.upIds ++ ids })
+    if !isTx && x.src == key then
+      let (cur, done) := idsStep x.upCur x.upIds ids first last
+      s.updFwd i (fun x => { x with upIds := done, upCur := cur })
     else if isTx && x.dst == key then
-      let x' := { x with downIds := x.downIds ++ ids }
+      let (cur, done) := idsStep x.downCur x.downIds ids first last
+      let x' := { x with downIds := done, downCur := cur }
       let s := s.updFwd i (fun _ => x')
       if natPrefix x'.downIds x'.upIds then s else
         s.fail "c05" line s!"forwarder {x.k}: the forwarded connect carries ids {x'.downIds} but the received requests have ids {x'.upIds} (ids must be preserved, in order)"
@@ -457,6 +463,23 @@ def Sim.onRxCloseFin (s : Sim) (line : Nat) (side : String) (port : Nat) (isFini
     | some l =>
       let s := s.fwdOnCloseRx line (name ++ ">" ++ side) isFinish
       let l := if l.mCloseRx.isNone then { l with mCloseRx := some (!isFinish, line) } else l
+      -- A forwarder that finds both upstream data and the close of its destination ready handles them in the
+      -- order `tokio::select!` picks at random; the model run takes the data first.  Both orders are accepted:
+      -- (A) the real forwarder closed its source port, the model's has not (yet): adopt the close;
+      -- (B) the model's forwarder closed its source port, the real one returned without: drop the model's close.
+      let key := name ++ ">" ++ side
+      let fwdSrc := s.fwds.find? (·.src == key)
+      let headClose := match l.st.back.dropWhile (fun b => match b with | .credits _ => true | _ => false) with
+        | .recvClose :: _ => true | _ => false
+      let dstClosed := match fwdSrc with
+        | some x => ((s.links.get? x.dst).map (fun dl => dl.st.s.closed.isSome)).getD false
+        | none => false
+      let caseA := !isFinish && !headClose && !(l.st.back.any (· == .recvClose)) &&
+        (match fwdSrc with | some x => !x.closedSeen && dstClosed | none => false)
+      let caseB := isFinish && headClose && fwdSrc.isSome
+      let l := if caseA then { l with st := { l.st with back := .recvClose :: l.st.back, r := { l.st.r with closed := true } } }
+               else if caseB then { l with st := { l.st with back := l.st.back.filter (· != .recvClose) } } else l
+      let s := if caseA then { s with fwds := s.fwds.map (fun x => if x.src == key then { x with closedSeen := true } else x) } else s
       -- a credit return deferred by a full event queue (`return_fut`) is flushed by the next receive
       -- call and may therefore be overtaken by the close notification: reorder the model's FIFO
       let isCred := fun (b : Back) => match b with | .credits _ => true | _ => false
@@ -509,7 +532,7 @@ def Sim.onWire (s : Sim) (line : Nat) (isTx : Bool) (side : String) (hex : Strin
           let f := Frame.ports (List.replicate ps.length 0) first last
           -- the ids actually carried (id = port number when none is given)
           let s := match s.keyOf (if isTx then other side else side) port with
-            | some key => s.fwdIds line isTx key (ids.getD ps)
+            | some key => s.fwdIds line isTx key (ids.getD ps) first last
             | none => s
           if isTx then s.onTxFrame line side port f else s.onRxFrame line side port f
         | .portCredits port n =>
@@ -592,9 +615,12 @@ def Sim.pmRet (s : Sim) (line : Nat) (k : String) (res : List String) : Sim :=
   let isConn := (lookupS pm.recvOn k).isNone && (res.head? == some "ok" && (res.getD 1 "").startsWith "local=" || res.head? == some "err")
   let s := match lookupS pm.halfId k with
     | some id =>
-      if !isConn then s else
+      -- (requests that are dropped unanswered - teardown, a forwarder that has returned - resolve as rejected)
+      if !isConn || s.teardown then s else
       match lookupN pm.decided id with
-      | none => s.fail "c05" line s!"connect {k} (id {id}) resolved with '{" ".intercalate res}' before the request with its id was answered: it was paired with another request"
+      | none =>
+        if !(pm.reqId.any (·.2 == id)) || s.fwds.any (·.retLine.isSome) then s else
+        s.fail "c05" line s!"connect {k} (id {id}) resolved with '{" ".intercalate res}' before the request with its id was answered: it was paired with another request"
       | some none =>
         if res.head? == some "ok" then s else
           s.fail "c05" line s!"connect {k} (id {id}) resolved with '{" ".intercalate res}' although the request with its id was accepted"
@@ -1014,7 +1040,7 @@ def Sim.c03AtSettle (s : Sim) (line : Nat) (pend : List String) (creditLines : L
 
 /-- `forward_close_propagates` on the real trace: at a quiescent point with drained, open wires a forwarder that
 is between two messages and was told that its destination closed has closed its source port -/
-def Sim.fwdAtSettle (s : Sim) (line : Nat) : Sim :=
+def Sim.fwdAtSettle (s : Sim) (line : Nat) (creditLines : List (List String)) : Sim :=
   if s.teardown then s else
   let drained := (s.txCount.get? "A").getD 0 == (s.rxCount.get? "B").getD 0 &&
                  (s.txCount.get? "B").getD 0 == (s.rxCount.get? "A").getD 0
@@ -1024,7 +1050,12 @@ def Sim.fwdAtSettle (s : Sim) (line : Nat) : Sim :=
   s.fwds.foldl (fun s x =>
     match x.closeRx with
     | some (_, cl) =>
-      if x.closeTx.isNone && x.retLine.isNone && x.looksIdle then
+      -- (a forwarder holding a message it cannot send for lack of credits is not in its `select!`: require
+      -- that its sender has credits for any frame)
+      let pool := match x.dst.splitOn ">" with
+        | [name, side] => (creditLines.find? (fun (ws : List String) => ws.take 2 == [name, side])).bind (fun ws => kvNat ws "pool")
+        | _ => none
+      if x.closeTx.isNone && x.retLine.isNone && x.looksIdle && (pool.getD 0) ≥ 4 then
         s.fail "c11" line s!"forwarder {x.k}: a close notification for {x.dst} was delivered (line {cl}) and the forwarder is between two messages, yet it has not closed its source port {x.src}: the close does not reach the origin"
       else s
     | none => s) s
@@ -1076,7 +1107,7 @@ def stepLine (a : RunAcc) (n : Nat) (line : String) : IO RunAcc := do
       | none => []
     let s := s.onSettled n rest
     let s := s.c03AtSettle n pend a.creditLines
-    let s := s.fwdAtSettle n
+    let s := s.fwdAtSettle n a.creditLines
     -- (a quiescent point counts only if every wire was open)
     let s := if (s.windowOpen.get? "A").getD true && (s.windowOpen.get? "B").getD true &&
                 (s.releaseOpen.get? "A").getD true && (s.releaseOpen.get? "B").getD true then { s with lastSettle := n } else s
